@@ -294,6 +294,9 @@ pub fn replay(a: &Args, v: &Value, report: &mut Report, stats: &mut RunStats) {
                 eprintln!("step {} {} ok={} err={:?} tree={:?} bad_debt_pre={} vault_pre={}", st.seq, st.op.kind(), st.out.ok, st.out.err, st.out.msg_tree, st.pre.eng.bad_debt, st.pre.bal(h.w.engine.as_str()));
                 if !st.out.ok || std::env::var("PERPMON_TRACE").map(|v| v == "2").unwrap_or(false) {
                     eprintln!("   transfers={:?}", st.out.transfers);
+                    if let (Some(vi), Some(sender)) = (st.op.engine_vamm().and_then(|a| h.w.vamm_idx(a)), crate::mon::util::engine_msg(&st.op).map(|x| x.0)) {
+                        eprintln!("   pos pre={:?}\n   pos post={:?}\n   vamm pre q={} b={} post q={} b={} partial={}", st.pre.pos(vi, sender), st.post.pos(vi, sender), st.pre.vamms[vi].q, st.pre.vamms[vi].b, st.post.vamms[vi].q, st.post.vamms[vi].b, st.pre.eng.partial);
+                    }
                 }
             }
         }
